@@ -12,11 +12,11 @@ import (
 func verifC25F(a, b float64) bool { return math.Float64bits(a) == math.Float64bits(b) }
 
 func verifC25Labels(name string, n int) []labelpb.ZLabel {
-	// label names are concrete and sorted (a < b); values are symbolic one-character strings, so equal values
-	// share a symbol and different ones do not
+	// label names are concrete and sorted (a < b); values are symbolic strings of length 0..1, so equal values
+	// share a symbol, different ones do not, and the empty symbol occurs
 	var out []labelpb.ZLabel
 	for i := 0; i < n; i++ {
-		out = append(out, labelpb.ZLabel{Name: [3]string{"a", "b", "c"}[i], Value: verifStrN(verifName(name, i), 1, "xy")})
+		out = append(out, labelpb.ZLabel{Name: [3]string{"a", "b", "c"}[i], Value: verifStr(verifName(name, i), 1, "xy")})
 	}
 	return out
 }
@@ -32,6 +32,15 @@ func verifC25Histogram(name string) prompb.Histogram {
 	verifAssume(h.ResetHint >= 0)
 	verifAssume(h.ResetHint <= 3)
 	isFloat := verifIntRange(name+"_float", 0, 1) == 1
+	if verifParam("HSIMPLE", 0) == 1 {
+		// scalars only (used where several series are combined)
+		if isFloat {
+			h.Count = &prompb.Histogram_CountFloat{CountFloat: verifFloat(name + "_countf")}
+		} else {
+			h.Count = &prompb.Histogram_CountInt{CountInt: verifUint64(name + "_count")}
+		}
+		return h
+	}
 	if isFloat {
 		h.Count = &prompb.Histogram_CountFloat{CountFloat: verifFloat(name + "_countf")}
 		h.ZeroCount = &prompb.Histogram_ZeroCountFloat{ZeroCountFloat: verifFloat(name + "_zcf")}
@@ -135,6 +144,10 @@ func verifC25CheckHistogram(got HistogramSample, in prompb.Histogram) {
 	verifAssert(len(g.CustomValues) == len(want.CustomValues), "histogram-custom-values")
 	verifReach("int-histogram")
 }
+
+// VerifC25Reuse: two series decoded into one reused Series value (as CapNProtoWriter.Write does): the second
+// must not inherit samples, histograms or exemplars of the first
+func VerifC25Reuse() { VerifC25RoundTrip() }
 
 // VerifC25Exemplars: one series with labels, samples and an exemplar
 func VerifC25Exemplars() { VerifC25RoundTrip() }
